@@ -155,15 +155,23 @@ def run(ctx):
         def th_bez2poly(it, P=P, cq=cq):
             o = it.construct(cq, *P)
             f2 = it.closure_of('path.bez2poly')
+            # every option combination for both input forms (segment object, tuple of control points)
+            both = [(inp, nm) for inp, nm in ((o, 'segment'), (tuple(P), 'tuple'))]
             return (it.call(f2, [o], {}), it.call(f2, [o], {'return_poly1d': True}),
-                    it.call(f2, [tuple(P)], {'numpy_ordering': False}))
+                    it.call(f2, [tuple(P)], {'numpy_ordering': False}),
+                    [(nm, it.call(f2, [inp], {'numpy_ordering': False}), it.call(f2, [inp, True, False], {})) for inp, nm in both])
 
         def judge_bez2poly(v, B=B):
-            cs, p1d, rev = v
+            cs, p1d, rev, combos = v
             if not isinstance(p1d, PolyT):
                 return False, 'return_poly1d did not give a poly1d'
-            return decide_all_equal([('coeffs', horner(list(cs)), B), ('poly1d', p1d(T), B),
-                                     ('reverse ordering', horner(list(reversed(list(rev)))), B)])
+            pairs = [('coeffs', horner(list(cs)), B), ('poly1d', p1d(T), B), ('reverse ordering', horner(list(reversed(list(rev)))), B)]
+            # (numpy_ordering=False together with return_poly1d=True is left out: what a poly1d of standard-ordered coefficients
+            # should denote is not said anywhere)
+            for nm, rv, pos in combos:
+                pairs.append(('%s input, numpy_ordering=False' % nm, horner(list(reversed(list(rv)))), B))
+                pairs.append(('%s input, positional (True, False)' % nm, horner(list(pos)), B))
+            return decide_all_equal(pairs)
         ob(R + '.dispatch').run(mdl.func('path.bez2poly'), 'bez2poly(%s) three output forms' % cname, th_bez2poly, judge_bez2poly)
 
     # --- bezier_point for degrees 0..3 (the explicit Horner branches)
